@@ -11,12 +11,11 @@ theorem locate_complete (file : List Line) (h : Hunk) (iw : Bool) (offset maxFuz
     (p f : Nat) (hwf : h.WF) (hc : h.old.count ≠ 0) (hp : minLine ≤ p)
     (hadm : admissibleB file h iw maxFuzz p f = true) :
     ∃ loc, locateHunk file h iw offset maxFuzz minLine = some loc ∧ loc.fuzz ≤ (f : Int) := by
-  have hlt := admissible_lt_length file h iw maxFuzz p f hwf hc hadm
-  obtain ⟨loc, hloc⟩ := locateHunk_complete file h iw offset maxFuzz minLine p f hc hp hlt hadm
+  obtain ⟨loc, hloc⟩ := locateHunk_complete file h iw offset maxFuzz minLine p f hc hp hadm
   obtain ⟨p0, f0, e, _, _, _, hmin⟩ := locateHunk_some file h iw offset maxFuzz minLine loc hc hloc
   refine ⟨loc, hloc, ?_⟩
   subst e
-  have := hmin p f hp hlt hadm
+  have := hmin p f hp hadm
   simp only
   omega
 
@@ -25,10 +24,9 @@ theorem locate_least_fuzz (file : List Line) (h : Hunk) (iw : Bool) (offset maxF
     (loc : Location) (hloc : locateHunk file h iw offset maxFuzz minLine = some loc) (hwf : h.WF) (hc : h.old.count ≠ 0) :
     ∀ p f : Nat, minLine ≤ p → admissibleB file h iw maxFuzz p f = true → loc.fuzz ≤ (f : Int) := by
   intro p f hp hadm
-  have hlt := admissible_lt_length file h iw maxFuzz p f hwf hc hadm
   obtain ⟨p0, f0, e, _, _, _, hmin⟩ := locateHunk_some file h iw offset maxFuzz minLine loc hc hloc
   subst e
-  have := hmin p f hp hlt hadm
+  have := hmin p f hp hadm
   simp only
   omega
 
@@ -37,8 +35,7 @@ theorem locate_exact (file : List Line) (h : Hunk) (iw : Bool) (offset maxFuzz :
     (hwf : h.WF) (hc : h.old.count ≠ 0) (hg : expectedLine h - 1 + offset = (g : Int)) (hm : minLine ≤ g)
     (hadm : admissibleB file h iw maxFuzz g 0 = true) :
     locateHunk file h iw offset maxFuzz minLine = some ⟨g, 0, 0⟩ :=
-  locateHunk_exact file h iw offset maxFuzz minLine g hc hg hm
-    (admissible_lt_length file h iw maxFuzz g 0 hwf hc hadm) hadm
+  locateHunk_exact file h iw offset maxFuzz minLine g hc hg hm hadm
 
 /-- an insertion that carries no context goes exactly to its stated line (the exclusion is known finding D2) -/
 theorem locate_insertion_exact (file : List Line) (h : Hunk) (iw : Bool) (offset maxFuzz : Int) (minLine : Nat) (g : Nat)
